@@ -611,7 +611,9 @@ def do_op(ctx, aid, oi, table, op):
     if k == "terminate":
         t0 = s.now
         ctx.group.terminate(op[1])
-        return ("val", len(ctx.group), t0, s.now)
+        me = s.current.proc
+        alive = sorted(p.name for p in ctx.w.procs if p.parent is me and p.alive)
+        return ("val", len(ctx.group), t0, s.now, alive)
     if k == "gwexit":
         ctx.gws[op[1]].exit()
         return ("ok",)
